@@ -47,7 +47,7 @@ def harnesses(tier):
     XN = 5 if tier == 'quick' else 7
     hs.append(dict(name='c01_xml_attr', src='c01/xmlattr.c', defs=dict(N=XN),
                    units=[dict(src='repo:xml.c', remove=['xml_scan_wsnl', 'xml_scan_attribute_name', 'xml_scan_until_value', 'xml_scan_value'], cflags=['-include', 'vh_libc.h'])],
-                   unwind=XN + 4, unwindset=['xml_extract_named_attribute.2:4'], timeout=900, mem_gb=8, slice=True, replay=False,
+                   unwind=XN + 4, unwindset=['xml_extract_named_attribute.2:%d' % (XN + 2)], timeout=900, mem_gb=8, slice=True, replay=False,
                    bounds='source of %d arbitrary bytes, scanner answers arbitrary (inside the text), searched name "text"' % XN,
                    desc='xml_extract_named_attribute / xml_extract_attribute: heap copies never over-read or over-written, whatever the scanners report'))
     ALN = 4 if tier == 'quick' else 6
